@@ -1,6 +1,6 @@
 """Source of MANIFEST.json (bin/mkmanifest)."""
 
-HOOK_COMMITS = ["46e32d5"]
+HOOK_COMMITS = ["46e32d5"]  # fix: commits 05f402b cd70d96 dbc4d43 6d3b638 are unguarded repairs, see known_findings.json
 
 ENGINES = [
     {"name": "tlc+runner", "path": "/verif/bin/check",
@@ -16,7 +16,48 @@ NOTES = ("Technique: model-based verification with explicit TLA+ specifications 
 
 NOT_APPLICABLE = {}
 
+INTERP_NOTE = ("Bounded: every document of the family within MaxNodes (3-5) nodes exhaustively, larger ones by TLC "
+               "simulation; trusted: TLC, the runner, expat projection. The specification states the intended design; "
+               "behaviour matching a named deviation that is listed in known_findings.json is reported as KNOWN-FINDING.")
+
 CHECKS = {
+    "C10": dict(
+        category="model_checking",
+        text="TLC checks on Interp.tla (family order: all reference graphs over <= 4-5 id'd shapes incl. dangling, self and "
+             "cyclic references x all sibling orders x size spellings x optional group) that the outcome equals Sem.Ideal: "
+             "x coordinates follow the reference DAG whatever the order, unsatisfiable references fail, retry passes never "
+             "grow and the run terminates. Every behaviour is replayed on the real code (x by id, Err for unsatisfiable) "
+             "and traces are validated against TraceStruct.tla.",
+        note=INTERP_NOTE,
+        technique="TLC model checking of Interp.tla (order family) + replay + TLC trace validation",
+        design_ref="DESIGN.md 7 (C10)"),
+    "C15": dict(
+        category="model_checking",
+        text="TLC checks ScopeBalanced in every state and probe values = lexical lookup (Sem.Ideal) for every nesting of "
+             "g/var/if/loop with probes and forward references at every position; replay compares the probe values "
+             "printed by the real code and the end-of-transform probe; TraceStruct.tla requires scope/element-stack "
+             "height at every element exit (error paths included) to equal the height at entry.",
+        note=INTERP_NOTE,
+        technique="TLC model checking of Interp.tla (scope/reuse families) + replay + TLC trace validation",
+        design_ref="DESIGN.md 7 (C15)"),
+    "C16": dict(
+        category="model_checking",
+        text="TLC checks that the evaluator's output equals Sem.Ideal for every program of the loop family (count/while/"
+             "until, loop variables, if, var updates, '^' positioning, nesting) and derives each program's unrolling; on "
+             "the real code the rendered items equal the prediction and T(P) = T(Unroll(P)) (translation validation of "
+             "every pair); TraceStruct counts iterations.",
+        note=INTERP_NOTE + " Unroll(P) is produced by the specification.",
+        technique="TLC model checking of Interp.tla (loop family) + replay + translation validation against the spec-derived unrolling",
+        design_ref="DESIGN.md 7 (C16)"),
+    "C18": dict(
+        category="model_checking",
+        text="TLC checks output = Sem.Ideal for templates (shape/group, specs/inline, before/after use) x instantiation "
+             "sequences with different bindings (instances from the original target, reuse attributes override target "
+             "attributes, specs never rendered); on the real code predicted items and T(P) = T(Inline(P)) with the "
+             "inlining produced by the specification.",
+        note=INTERP_NOTE,
+        technique="TLC model checking of Interp.tla (reuse family) + replay + translation validation against the spec-derived inlining",
+        design_ref="DESIGN.md 7 (C18)"),
     "C17": dict(
         category="model_checking",
         text="TLC checks on spec/Interp.tla (design) that the depth counter equals the number of open elements in every "
